@@ -19,7 +19,7 @@ func init() {
 func rulePARSE1(w *World) []Ob {
 	p := w.D()
 	l := &obs{rule: "PARSE-1", cfg: "D"}
-	fn := p.Func("(*markdown.Parser).separateRow")
+	fn := separateRowBody(p)
 	if fn == nil {
 		l.undecided("(*markdown.Parser).separateRow", "parser state", "-", "function not found", "learn")
 		return l.list
@@ -225,6 +225,12 @@ func ruleSPLIT1(w *World) []Ob {
 						continue
 					}
 				}
+				// block != "" is the same test as len(block) != 0
+				if (x.Op == token.NEQ && pol) || (x.Op == token.EQL && !pol) {
+					if (isEmptyStringConst(x.Y) && sameVar(x.X, sent)) || (isEmptyStringConst(x.X) && sameVar(x.Y, sent)) {
+						continue
+					}
+				}
 				// arm index of the non-blocking cancellation poll
 				if ex, ok := x.X.(*ssa.Extract); ok {
 					if _, isSel := ex.Tuple.(*ssa.Select); isSel && ex.Index == 0 {
@@ -313,4 +319,49 @@ func ruleSPLIT1(w *World) []Ob {
 		l.bad(fid, "every line is appended to the current block", p.Pos(fn.Pos()), "a scanned line is not always appended to the pending block", "split")
 	}
 	return l.list
+}
+
+// separateRowBody: the function that holds the per-bullet logic of the parser — separateRow itself, or the helper it
+// calls for each candidate bullet and whose successful result it returns unchanged.
+func separateRowBody(p *Prog) *ssa.Function {
+	sep := p.Func("(*markdown.Parser).separateRow")
+	if sep == nil {
+		return nil
+	}
+	var body *ssa.Function
+	allInstrs(sep, func(in ssa.Instruction) {
+		c, ok := in.(*ssa.Call)
+		if !ok || c.Common().StaticCallee() == nil || !p.InModule(c.Common().StaticCallee()) {
+			return
+		}
+		g := c.Common().StaticCallee()
+		if recvTypeName(g) != "Parser" || g == sep || g.Signature.Results().Len() != sep.Signature.Results().Len() {
+			return
+		}
+		// the success return of sep hands back g's first results
+		allInstrs(sep, func(in2 ssa.Instruction) {
+			r, ok := in2.(*ssa.Return)
+			if !ok {
+				return
+			}
+			vals := rr(r)
+			if len(vals) < 2 {
+				return
+			}
+			all := true
+			for i := 0; i < len(vals)-1; i++ {
+				ex, isEx := vals[i].(*ssa.Extract)
+				if !isEx || ex.Tuple != ssa.Value(c) || ex.Index != i {
+					all = false
+				}
+			}
+			if all {
+				body = g
+			}
+		})
+	})
+	if body != nil {
+		return body
+	}
+	return sep
 }
